@@ -74,13 +74,16 @@ class Engine:
         out = r.stdout
         m = re.search(r"(\d+) states generated, (\d+) distinct states found", out)
         ok = ("Model checking completed. No error has been found." in out)
+        if mc.get("expect_violation"):
+            # a design variant that must NOT satisfy the invariant: shows the invariant is not vacuous
+            ok = ("Invariant %s is violated" % mc["expect_violation"]) in out
         replay_lines = [l for l in out.splitlines() if l.startswith('<<"REPLAY"')]
         acts = {}
         for a in re.finditer(r"^<(\w+) line \d+, col \d+ to line \d+, col \d+ of module \w+[^>]*>: (\d+):(\d+)", out, re.M):
             acts[a.group(1)] = acts.get(a.group(1), 0) + int(a.group(3))
         st = {"name": mc["name"], "spec": mc["tla"], "cfg": cfg, "ok": ok,
               "states_generated": int(m.group(1)) if m else 0, "distinct_states": int(m.group(2)) if m else 0,
-              "actions_taken": acts, "never_taken": [a for a, c in acts.items() if c == 0],
+              "expected_violation": mc.get("expect_violation"), "actions_taken": acts, "never_taken": [a for a, c in acts.items() if c == 0],
               "replay_rows": len(replay_lines), "wall_s": round(time.time() - t, 1)}
         self.mc_stats.append(st)
         if not ok:
@@ -168,6 +171,8 @@ class Engine:
                 elif ev == "reset":
                     s = e.get("s", {})
                     self.cov["scenario:%s/%s" % (s.get("framing", e.get("kind", "-")), s.get("faultKind", "-"))] += 1
+                elif ev == "rt":
+                    self.cov["rt:%s/%s/T=%s/%s" % (e.get("phase"), e.get("mode"), "set" if e.get("T") else "none", e.get("res"))] += 1
                 elif ev == "op":
                     self.cov["op:%s" % (e.get("op") or ["?"])[0]] += 1
                 elif ev == "mpart":
